@@ -7,6 +7,9 @@ COMMON_NOTE = ('python floats are mathematical reals (except clauses marked FP64
                'evidence file are trusted; configuration sizes (phases, elements, list items) are enumerated up to the stated bound, '
                'array lengths / mesh sizes / histories are symbolic (unbounded)')
 P = {
+ 'C11': ('Element order: for every ordering of 2 and 3 solutes (and a reference element that is not alphabetically first) the real _interdiffusivitySingle / _tracerDiffusivitySingle / _computeSingleMobility return at the user\'s position the backend value of the element NAMED there '
+         '(matrices permuted on both axes), and _getConditions maps X(name) to the user\'s number for that name; phase order: each of the five step-size constraints returns the same dt under every permutation of the phases and their per-phase data.',
+         'backend (pycalphad) equivariance assumed; P = 2 quick, P = 3 thorough'),
  'C13': ('Schedule objects (precipitation and diffusion) executed for constant / break-point / function forms: the value equals the documented function of time (hours, linear, end values) and '
          'constructor, setter and model.setTemperature give the same function AND the same isothermal flag, also after re-specification; one accepted step (Euler or RK4 stage pattern) of PrecipitateBase records '
          'time[n+1] = accepted time and temperature[n+1] = schedule(time[n+1]) with all 16 histories aligned; ghost-state invariant dTemp = T[n] - T_tab, |dTemp| <= maxTempChange for the binary lookup table through the real '
